@@ -484,8 +484,10 @@ def check(tier: str) -> int:
     stats = {
         "sched_runs": 0, "hist_runs": 0, "steps": 0, "switches": 0, "overlap_switches": 0,
         "aborts": {}, "abort_results": {}, "cancels": 0, "recursion_faults": {}, "mutations": 0,
-        "policies": {}, "granularity": {}, "ops_judged": 0, "ops_total": 0, "harness_timeouts": 0, "retried_after_timeout": 0,
+        "policies": {}, "granularity": {}, "ops_by_grammar_level": {}, "ops_on_texts_beyond_the_recursion_limit": 0,
+        "verbose_ops": 0, "ops_by_entry": {}, "pinned_clock_runs": 0, "ops_judged": 0, "ops_total": 0, "harness_timeouts": 0, "retried_after_timeout": 0,
     }
+    deep_texts = set(pool.DEEP)
     sched_sigs, sched_sigs_nontrivial, hist_sigs, hist_sigs_nontrivial = set(), set(), set(), set()
     fn_pairs = set()
     samples = []
@@ -519,6 +521,8 @@ def check(tier: str) -> int:
         if not res.get("finished"):
             report.harness(f"{task['engine']} run {task['run']}: did not finish within the wall-clock guard")
             continue
+        if any(op.get("pin_mtime") for op in ops_of_task(task)):
+            stats["pinned_clock_runs"] += 1
         if task["engine"] == "schedule":
             stats["sched_runs"] += 1
             stats["steps"] += res["steps"]
@@ -553,6 +557,15 @@ def check(tier: str) -> int:
                         stats["recursion_faults"][fr] = stats["recursion_faults"].get(fr, 0) + 1
                 elif rec.get("key"):
                     stats["ops_judged"] += 1
+                    kk = json.loads(rec["key"])
+                    if kk[3]:
+                        lv = ".".join(map(str, kk[3]))
+                        stats["ops_by_grammar_level"][lv] = stats["ops_by_grammar_level"].get(lv, 0) + 1
+                    if kk[1] in deep_texts:
+                        stats["ops_on_texts_beyond_the_recursion_limit"] += 1
+                    if kk[4]:
+                        stats["verbose_ops"] += 1
+                    stats["ops_by_entry"][kk[0]] = stats["ops_by_entry"].get(kk[0], 0) + 1
                     if rec["key"] in seen_keys:
                         nontrivial_hist = True
                     seen_keys.add(rec["key"])
@@ -650,6 +663,11 @@ def check(tier: str) -> int:
             "recursion_limit": stats["recursion_faults"],
             "caller_mutations": stats["mutations"],
         },
+        "ops_by_entry": stats["ops_by_entry"],
+        "ops_by_requested_grammar_level": stats["ops_by_grammar_level"],
+        "ops_on_texts_beyond_the_recursion_limit": stats["ops_on_texts_beyond_the_recursion_limit"],
+        "verbose_ops": stats["verbose_ops"],
+        "runs_with_in_place_rewrites_under_a_pinned_clock": stats["pinned_clock_runs"],
         "ops_total": stats["ops_total"],
         "ops_judged_against_golden": stats["ops_judged"],
         "golden_table_entries": len(golden),
